@@ -334,6 +334,14 @@ func Flush() {
 			samples = append(samples, map[string]any{"label": k, "case": s})
 		}
 	}
+	var hashes []uint64
+	if len(rec.distinct) <= 400000 {
+		hashes = make([]uint64, 0, len(rec.distinct))
+		for h := range rec.distinct {
+			hashes = append(hashes, h)
+		}
+		sort.Slice(hashes, func(i, j int) bool { return hashes[i] < hashes[j] })
+	}
 	part := map[string]any{
 		"property":            rec.prop,
 		"stage":               stageName(),
@@ -341,6 +349,7 @@ func Flush() {
 		"evaluations":         rec.evals,
 		"nontrivial":          rec.nontrivial,
 		"distinct_nontrivial": len(rec.distinct),
+		"distinct_hashes":     hashes,
 		"labels":              rec.labels,
 		"samples":             samples,
 		"known_hits":          rec.knownHits,
